@@ -71,7 +71,8 @@ class Check(PropertyCheck):
                   "the TXT, NS/CNAME/PTR and A codecs are transcriptions (Model/C50_Codecs.lean over C35's UTF-8 codec, C25's name codec, C22's "
                   "parseV4): utf8_dec_enc, name_dec_enc (for every Idna, no law), ip4_dec_enc, ip4_rejects_marker, transcribed_codec_laws(_A) and "
                   "dns_view_roundtrip_transcribed(_A): the guarded DNS-view round trip with YAML, Python's idna codec for ACE labels (no law needed) "
-                  "and the AAAA/HTTPS part as the only parameters. The property sentence is checked "
+                  "and the AAAA/HTTPS part as the only parameters; type/opcode/rcode/class_text_clean: to_str of every number is free of control characters "
+                  "(three of the `internal` texts C49's dumper_output_clean takes as hypothesis). The property sentence is checked "
                   "directly as an oracle: every registered view x random and structured bodies x message kinds: no exception, "
                   "clean text; DNS: reencode_message(prettify_message(m)) decoded by mitmproxy.dns equals the original.")
     level_note = ("partial: the DNS round trip is proved only under the guard (reserved = 0, every NS/CNAME/PTR/TXT rdata decodable, "
@@ -92,7 +93,7 @@ class Check(PropertyCheck):
             "re-used after first occurring before and after byte offset 16384). "
             "distinct = distinct case; non-trivial = body non-empty.")
     budget = {"quick": 9000, "thorough": 150000}
-    time_budget = {"quick": 14, "thorough": 600}
+    time_budget = {"quick": 10, "thorough": 600}
     fingerprints = ["mitmproxy.contentviews:prettify_message", "mitmproxy.contentviews:reencode_message",
                     "mitmproxy.contentviews._view_dns:DNSContentview", "mitmproxy.contentviews._registry:ContentviewRegistry.get_view",
                     "mitmproxy.contentviews._utils:get_data", "mitmproxy.contentviews._utils:yaml_dumps",
